@@ -120,3 +120,6 @@ var max256 = func() []byte {
 	}
 	return b
 }()
+
+// opINVALID is the designated invalid instruction (0xfe); the repository has no constant for it.
+const opINVALID = evm.OpCode(0xfe)
